@@ -94,6 +94,57 @@ def full_hello_replay(case):
     return [(k, m) for k, m, _ in r.violations]
 
 
+def failing_observer_probe(run):
+    """objects whose compose() has to fail (a field combination without encoding): the failure must leave the object
+    as it was, and must repeat - an observer that 'repairs' the object on the way is not pure"""
+    import copy
+    from cryptoparser.tls import mysql, openvpn
+    builders = {
+        'mysql-plugin-auth-without-name': lambda: mysql.MySQLHandshakeV10(
+            mysql.MySQLVersion.MYSQL_10, '8.0.1', 7, b'12345678', {mysql.MySQLCapability.CLIENT_PLUGIN_AUTH}),
+        'mysql-plugin-auth-data2-without-name': lambda: mysql.MySQLHandshakeV10(
+            mysql.MySQLVersion.MYSQL_10, '8.0.1', 7, b'12345678',
+            {mysql.MySQLCapability.CLIENT_PLUGIN_AUTH, mysql.MySQLCapability.CLIENT_SSL}, auth_plugin_data_2=b'0123456789abc'),
+        'openvpn-acks-without-remote-session': lambda: openvpn.OpenVpnPacketAckV1(1, None, [5, 6]),
+        'openvpn-remote-session-without-acks': lambda: openvpn.OpenVpnPacketControlV1(1, [], 9, 3, b'payload'),
+    }
+    for label, build in builders.items():
+        case = {'kind': 'failing-observer', 'name': label}
+        run.evaluations += 1
+        for key, msg in failing_observer_case(case, build):
+            run.finding(key, msg, case)
+
+
+def failing_observer_case(case, build=None):
+    from cryptoparser.tls import mysql, openvpn
+    if build is None:
+        build = {
+            'mysql-plugin-auth-without-name': lambda: mysql.MySQLHandshakeV10(
+                mysql.MySQLVersion.MYSQL_10, '8.0.1', 7, b'12345678', {mysql.MySQLCapability.CLIENT_PLUGIN_AUTH}),
+            'mysql-plugin-auth-data2-without-name': lambda: mysql.MySQLHandshakeV10(
+                mysql.MySQLVersion.MYSQL_10, '8.0.1', 7, b'12345678',
+                {mysql.MySQLCapability.CLIENT_PLUGIN_AUTH, mysql.MySQLCapability.CLIENT_SSL}, auth_plugin_data_2=b'0123456789abc'),
+            'openvpn-acks-without-remote-session': lambda: openvpn.OpenVpnPacketAckV1(1, None, [5, 6]),
+            'openvpn-remote-session-without-acks': lambda: openvpn.OpenVpnPacketControlV1(1, [], 9, 3, b'payload'),
+        }[case['name']]
+    try:
+        obj = build()
+    except Exception:  # pylint: disable=broad-except
+        return []       # refused at construction
+    name = type(obj).__name__
+    before = canon.generic(obj)
+    results = []
+    for _ in range(3):
+        results.append(observe(obj, 'compose'))
+        if canon.generic(obj) != before:
+            return [('observer-mutates:{}:compose'.format(name),
+                     '{} ({}): compose() changed the object: {} -> {}'.format(name, case['name'], before[:200], canon.generic(obj)[:200]))]
+    if len(set(results)) != 1:
+        return [('observer-unstable:{}:compose'.format(name), '{} ({}): compose() gave {} on repeated calls'.format(
+            name, case['name'], results))]
+    return []
+
+
 def shared_defaults(run):
     """(b) the probe that also feeds lean/CpModel/Gen/Defaults.lean, evaluated on the live classes"""
     import attr
@@ -332,6 +383,7 @@ def run(run, driver_ok=True, deep=False):
             aliasing(run, name, cls, data, case)
             state_independence(run, name, cls, obj, data, case)
     full_vector_hello(run)
+    failing_observer_probe(run)
     shared_defaults(run)
     run.notes.append('(c) aliasing and (a) mutation monitors run on the real code; (b) is the proof obligation')
 
@@ -344,6 +396,8 @@ def replay(case):
     r = core.Run('C13', 'quick', 0)
     if case.get('kind') == 'full-hello':
         return full_hello_replay(case)
+    if case.get('kind') == 'failing-observer':
+        return failing_observer_case(case)
     if case.get('kind', '').startswith('shared-default'):
         shared_defaults(r)
         return [(k, m) for k, m, _ in r.violations + [(k, v[2], v[1]) for k, v in r.known_hits.items()]]
